@@ -1,0 +1,68 @@
+//go:build verif
+
+package blake2s
+
+import "sync"
+
+// Verification hooks (build tag "verif" only): force each hashBlocks
+// dispatch variant in turn.  Nothing here is compiled without the tag.
+
+var verifCPU struct {
+	once              sync.Once
+	sse4, ssse3, sse2 bool
+}
+
+func verifCapture() {
+	verifCPU.once.Do(func() {
+		verifCPU.sse4, verifCPU.ssse3, verifCPU.sse2 = useSSE4, useSSSE3, useSSE2
+	})
+}
+
+// VerifVariants lists the hashBlocks implementations this build and CPU can
+// run ("sse4", "ssse3", "sse2", "generic").  In a purego / non-x86 build the
+// dispatch flags are constant false and only "generic" is listed.
+func VerifVariants() []string {
+	verifCapture()
+	var v []string
+	if verifCPU.sse4 {
+		v = append(v, "sse4")
+	}
+	if verifCPU.ssse3 {
+		v = append(v, "ssse3")
+	}
+	if verifCPU.sse2 {
+		v = append(v, "sse2")
+	}
+	return append(v, "generic")
+}
+
+// VerifSetSIMD sets the dispatch flags and returns the previous values.
+func VerifSetSIMD(sse4, ssse3, sse2 bool) (oldSSE4, oldSSSE3, oldSSE2 bool) {
+	verifCapture()
+	oldSSE4, oldSSSE3, oldSSE2 = useSSE4, useSSSE3, useSSE2
+	useSSE4, useSSSE3, useSSE2 = sse4, ssse3, sse2
+	return
+}
+
+// VerifSelect forces the named variant (one of VerifVariants) and returns a
+// function restoring the previous flags.  ok is false for a variant that is
+// not available here (flags are left unchanged).
+func VerifSelect(variant string) (restore func(), ok bool) {
+	verifCapture()
+	var s4, s3, s2 bool
+	switch variant {
+	case "sse4":
+		s4, ok = true, verifCPU.sse4
+	case "ssse3":
+		s3, ok = true, verifCPU.ssse3
+	case "sse2":
+		s2, ok = true, verifCPU.sse2
+	case "generic":
+		ok = true
+	}
+	if !ok {
+		return func() {}, false
+	}
+	o4, o3, o2 := VerifSetSIMD(s4, s3, s2)
+	return func() { VerifSetSIMD(o4, o3, o2) }, true
+}
